@@ -173,6 +173,19 @@ func c16Stores(c *Ctx, a *sketchAnchors) {
 					if isWindowRange(first, last, func(t *Term) bool { return t.isParam(0) }) || isWholeArrayRange(first, last) {
 						okLoop = true
 					}
+					// … every one of them: the loop is left only through its counter test (a `break` on an empty bin
+					// leaves the bins behind it unscaled)
+					for lb := range l.Blocks {
+						if lb == l.Header {
+							continue
+						}
+						for _, sc := range lb.Succs {
+							if !l.Blocks[sc] {
+								okLoop = false
+								found = "the scaling loop is left early at " + c.ipos(lb.Instrs[len(lb.Instrs)-1])
+							}
+						}
+					}
 				}
 			}
 		}
